@@ -52,7 +52,8 @@ func HC18_mixing() {
 	var bp model.BiasProps = props
 	bias := NewCriteriaMixing(rt.Generators, c18manager())
 	snap := rt.Snapshot(current)
-	original := vh.Params(vh.Alternatives("orig.", vh.AltIds[:2], crit), []string{"b"}, crit, majority.MajorityHeuristicParams{Weights: vh.Weights("orig.w.", crit, 0.125, 4)}) // differs from current: must not be used
+	origCrit := append(append(model.Criteria{}, crit...), model.Criterion{Id: "dropped-earlier", Type: model.Gain})
+	original := vh.Params(vh.Alternatives("orig.", vh.AltIds[:2], origCrit), []string{"b"}, origCrit, majority.MajorityHeuristicParams{Weights: vh.Weights("orig.w.", origCrit, 0.125, 4)}) // differs from current: must not be used
 	res := bias.Apply(original, current, &bp, &listener)
 	rt.Assert("C18.mix.received-state-untouched", rt.Same(snap, current))
 	if K < 2 {
